@@ -14,7 +14,7 @@ def tail(p):
 res = subprocess.run(['grep', '-h', 'RESULT', '/tmp/seed/%s.verify.log' % sid], capture_output=True, text=True).stdout.strip()
 meta = {
   "property": sid if len(sys.argv) < 7 else sys.argv[6],
-  "source": "independent sub-agent given only the property text and a scratch worktree of /repo at 371dc0b",
+  "source": "independent sub-agent given only the property text and a scratch worktree of /repo (HEAD at the time; rounds 1-2: 371dc0b, round 3: 5de3a8c)",
   "needs_to_manifest": needs,
   "confirmed": {
      "how": "tools_seed_verify.sh: go build ./...; demo (go test -run Seed in the demo's package) with the change; same with the change reverted; full suite `go test -vet=off -count=1 ./...` with the change and the demo set aside",
